@@ -1092,11 +1092,20 @@ def _run(ctx):
 
 
 def replay(ctx, rep):
-    """re-executes the clause of a replay file that names a concrete input"""
+    """re-runs the check with the recorded seed and tier and reports whether
+    the recorded violation (same stable key) reproduces: exit 1 if it does"""
     import json
-    print(json.dumps(rep, indent=1, default=str)[:4000])
-    r = rep.get("replay", {})
-    if "dict" in r and "universe" in r:
-        print("re-run: order_substitutions on the recorded dict -> see "
-              "'sequential' vs 'simultaneous' above")
-    return 0
+    import random
+    print(json.dumps({k: rep.get(k) for k in ("property", "key", "what",
+                                               "found_failing_input")},
+                     indent=1))
+    print(json.dumps(rep.get("replay", {}), indent=1, default=str)[:3000])
+    ctx.tier = rep.get("tier", "quick")
+    ctx.rng = random.Random(rep.get("seed", ctx.seed))
+    global MAX_PER_CLAUSE
+    MAX_PER_CLAUSE = 10 ** 9
+    run(ctx)
+    hit = [v for v in ctx.violations if v["key"] == rep.get("key")]
+    print(f"replay: {len(ctx.violations)} violating inputs in the re-run, "
+          f"recorded key {'REPRODUCED' if hit else 'not reproduced'}")
+    return 1 if hit else 0
